@@ -128,7 +128,7 @@ CLAIMED = {
              "run from the working tree under a background client load; pid files, socket file, process table and refused "
              "connections at quiescent checkpoints are validated by TLC against specs/UpgradeTrace.tla, whose ops drive the "
              "Upgrade actions (clauses on observed values = verdict; difference from the model state = drift)."
-             " Histories include WINCH / HUP on a daemonized old master (back-out, then the next upgrade), a new release that cannot boot, runs without a configured pid file, --timeout 0, servers started from a symlinked release directory that is switched before every USR2, HUP while an upgrade is pending, and worker turnover during a pending upgrade (MasterLeftWithoutWorkers). Run alongside (outside the property, drift only): specs/Listeners.tla, where a starting master gets its listeners from (activation variables, fd:// binds, what is at the unix path, a taken port), followed on real starts. Deployments include settings given through GUNICORN_CMD_ARGS.",
+             " Histories include WINCH / HUP on a daemonized old master (back-out, then the next upgrade), a new release that cannot boot, runs without a configured pid file, --timeout 0, servers started from a symlinked release directory that is switched before every USR2, HUP while an upgrade is pending, and worker turnover during a pending upgrade (MasterLeftWithoutWorkers). Run alongside (outside the property, drift only): specs/Listeners.tla, where a starting master gets its listeners from (activation variables, fd:// binds, what is at the unix path, a taken port), followed on real starts; and specs/BindAddr.tla, what a bind string means (util.parse_address transcribed character by character; every string of <= 3 / 4 pieces replayed into the real function and through Config.address). Deployments include settings given through GUNICORN_CMD_ARGS.",
         design_ref="DESIGN.md 4 C14, 9",
         technique="TLA+ model checking of the two-master protocol + TLC trace validation of real upgrade histories"),
     "C16": dict(
